@@ -155,6 +155,11 @@ pub fn generate_c02(thorough: bool, seed: u64, _part: (usize, usize), em: &mut E
     for &off in offs { for &sel in &[0x100u32, 0x101, 0x102, 0x10000, 0x80000001, 0xffffffff, 0x00000200, 0x01000000] {
         emit(em, format!("x224_conn {} 1 {}", off, hex(&confirm(2, 0, sel))));
     } }
+    // certificate checking over real TLS (self-signed reference server): every combination
+    for check in 0..2 { for nla in 0..2 { for ra in 0..2 { for &ssel in &[0u32, 1] {
+        if nla == 0 && ssel == 0 && ra == 1 && check == 0 { continue; }
+        crate::props::conn::tlsgate(em, check == 1, nla == 1, ra == 1, ssel);
+    } } } }
     // absent / truncated / extended / random confirms
     let good = confirm(2, 0, 1);
     for cut in 0..=good.len() { emit(em, format!("x224_conn 3 1 {}", hex(&good[..cut]))); }
